@@ -227,7 +227,9 @@ def fam_c11(ctx):
         for k in range(1, 3 * to + 6):
             for ign in (0, 1):
                 for who in ("oldest", "youngest"):
-                    S.append(ex([(["select.tick", k], [["hang", who, ign]])], timeout=to, nw=2, tail_s=to + 6))
+                    # (abrt_core: the aborted worker dumps core - its wait status carries the 0x80 bit)
+                    S.append(ex([(["select.tick", k], [["hang", who, ign]])], timeout=to, nw=2, tail_s=to + 6,
+                                abrt_core=bool((k + ign) % 2)))
     # long timeouts: the lateness of the kill must not grow with the timeout (the master looks once a second)
     # (the worker hangs after its first heartbeat: 2 ticks per second, the environment beats just in time)
     for to in (8, 20, 30):
@@ -273,6 +275,12 @@ def fam_c10(ctx):
                                   [["sig", "HUP", 1, 1]]], stride=1)
     base = [(["select.pre", 2], [["sig", "HUP", 1, 0]])]
     S += inject_everywhere(base, [[["sig", "HUP", 2, 0]], [["die", "oldest", 9]], [["sig", "TTIN"]]], nw=3, stride=1)
+    # an old worker dies (and is reaped by the SIGCHLD handler) at every source line of the master's once-a-second passes
+    # that follow a reload
+    for fn, upto in (("murder_workers", 14 if ctx.quick else 40), ("manage_workers", 10 if ctx.quick else 30)):
+        for nth in range(1, upto):
+            S.append(ex([(["select.pre", 2], [["sig", "HUP", 2, 0]]), (["line:" + fn, nth], [["die", "oldest", 15 if nth % 2 else 0]])],
+                        nw=2, line_points=True))
     n = 800 if ctx.quick else 5000
     for i in range(n):
         S.append(rnd(ctx.seed * 100000 + 60000 + i, nw=rng.choice([1, 2, 3]), timeout=rng.choice([2, 3]),
